@@ -98,7 +98,19 @@ impl Oracle {
         self.prev_role.remove(&id);
     }
 
-    pub fn on_vote_request(&mut self, _candidate: u32, _term: u64) {}
+    /// a candidate's vote requests for `term` are out: it has voted for itself in that term
+    pub fn on_vote_request(&mut self, candidate: u32, term: u64) {
+        let set = self.grants.entry((candidate, term)).or_default();
+        set.insert(candidate);
+        if set.len() > 1 {
+            let s = format!("{set:?}");
+            self.violate(
+                "C02",
+                format!("dv{candidate}t{term}"),
+                format!("node {candidate} granted its vote in term {term} to several candidates {s} (its own candidacy counts)"),
+            );
+        }
+    }
 
     pub fn on_write_accepted(&mut self, node: u32, term: u64) {
         self.acted.entry(term).or_default().insert(node);
